@@ -23,8 +23,11 @@
        constants, enums and typedefs are never deleted, the enum a definition stands for is
        preserved ([enum_values_of_q]), and an include that was deleted leads to a file without
        constants, enums and typedefs, which explains nothing).
-   Final statements: [trim_resolves_given_bases] (every configuration; base services of the
-   output remain a hypothesis) and [trim_resolves_without_filter] (no hypothesis on the output). *)
+     - with a method filter a kept service whose `extends` is not cleared has its base service
+       and the include marked ([marked_services_good]), so its base service resolves too
+       ([trimmed_base_ok_filter]).
+   Final statement: [trim_resolves] — every configuration, no hypothesis on the output.
+   ([trim_resolves_given_bases], [trim_resolves_without_filter] are the intermediate forms.) *)
 From Coq Require Import List Bool Arith NArith ZArith Lia.
 From Coq.Strings Require Import Byte.
 From Verif Require Import Base.Bytes Idl.Ast Idl.AstUtil Idl.AstFacts Idl.Trim Idl.TrimSpec Idl.TrimFacts.
@@ -1417,3 +1420,349 @@ Section Idents4.
     apply trimmed_idents_ok.
   Qed.
 End Idents4.
+
+
+(* ==================================================================== *)
+(* ---------------------------------------------------------------- with a method filter: a kept service
+   whose `extends` is not cleared has its base service (and the include) marked *)
+
+Lemma in_ext_le a b F i : le a b -> in_ext a F i = true -> in_ext b F i = true.
+Proof.
+  intros [_ [L _]] H. unfold in_ext in *. apply existsb_exists in H. destruct H as [x [Hx Hb]].
+  apply existsb_exists. exists x. split; [apply L; exact Hx | exact Hb].
+Qed.
+Lemma in_ext_add F i st : in_ext (add_ext F i st) F i = true.
+Proof. unfold in_ext, add_ext, ext_eqb. cbn. rewrite beqb_refl, Nat.eqb_refl. reflexivity. Qed.
+
+Section FilterBase.
+  Variable matches : bytes -> bytes -> bool.
+  Variable cp : bytes -> bool.
+  Variable c : cfg.
+  Variable p : program.
+  Hypothesis Hfilter : filtering c = true.
+
+  Definition good_ext (st : mstate) (F : bytes) (si : nat) (s : service) : Prop :=
+    sv_extends s <> [] ->
+    in_ext st F si = true \/
+    exists b via, base_of p F s = Some (b, via) /\ marked st b = true /\ forall m, In m via -> marked st m = true.
+
+  Lemma good_ext_le a b F si s : le a b -> good_ext a F si s -> good_ext b F si s.
+  Proof.
+    intros L H Hne. destruct (H Hne) as [H1|[bb [via [Hb [Mb Mv]]]]]; [left; eapply in_ext_le; eauto|].
+    right. exists bb, via. split; [exact Hb|]. split; [eapply le_marked; eauto|].
+    intros m Hm'. eapply le_marked; [exact L | auto].
+  Qed.
+
+  Definition trace_gpost (rec : list bytes -> bytes -> nat -> mstate -> res (mstate * bool)) : Prop :=
+    forall fa F si s st st' ret, rec fa F si st = Ok (st', ret) -> service_at p F si s ->
+      (ret = true -> marked st' (NService F si) = true) /\ good_ext st' F si s /\
+      (forall G gi gs, service_at p G gi gs -> marked st' (NService G gi) = true ->
+         marked st (NService G gi) = false -> good_ext st' G gi gs).
+
+  Lemma trace_body_gpost rec fuel :
+    (forall fa F si st r, rec fa F si st = Ok r -> le st (fst r)) ->
+    trace_gpost rec -> trace_gpost (trace_body matches c p rec fuel).
+  Proof.
+    intros Hmono Hrec fa F si s st st' ret H Hsa.
+    destruct Hsa as [f [Hf Hs]]. unfold trace_body in H. rewrite Hf, Hs in H.
+    assert (service_at p F si s) as Hsa by (exists f; auto).
+    apply TrimFacts.bind_ok in H. destruct H as [[st1 ret1] [H1 H]].
+    apply trace_loop_only in H1. cbn [fst] in H1.
+    apply TrimFacts.bind_ok in H. destruct H as [[st3 ret3] [H3 H]].
+    (* the end of the function *)
+    assert (le st3 st' /\ only_svc F si st3 st' /\ ret = ret3 /\
+            (ret3 = true -> marked st' (NService F si) = true /\
+                            forall r i tn, sv_ref s = Some r -> include_file p f (ref_index r) = Some (i, tn) ->
+                                           marked st' (NInclude F i) = true)) as [L3 [O3 [Er Hend]]].
+    { destruct ret3.
+      - apply TrimFacts.bind_ok in H. destruct H as [st4 [H4 H]]. injection H as <- <-.
+        pose proof (mark_service_include_le _ _ _ _ _ _ H4) as L4.
+        split; [eapply le_trans; [apply le_mark | exact L4]|].
+        split; [eapply only_svc_trans; [apply only_svc_mark | apply only_svc_same; eapply mark_service_include_services; exact H4]|].
+        split; [reflexivity|]. intros _. split; [eapply le_marked; [exact L4|]; apply marked_mark; auto|].
+        intros r i tn Hr0 Hi. unfold mark_service_include in H4. rewrite Hr0, Hi in H4. injection H4 as <-.
+        apply marked_mark. auto.
+      - injection H as <- <-. split; [apply le_refl|]. split; [apply only_svc_refl|]. split; [reflexivity | discriminate]. }
+    subst ret.
+    destruct (is_nil (sv_extends s)) eqn:Enil.
+    - injection H3 as <- <-.
+      assert (good_ext st' F si s) as Gs.
+      { intros Hne. destruct (sv_extends s); [congruence | discriminate]. }
+      split; [intros E; apply Hend; exact E|]. split; [exact Gs|].
+      intros G gi gs Hg Hmk H0.
+      destruct (O3 _ _ Hmk) as [M1|[-> ->]].
+      + destruct (H1 _ _ M1) as [M0|[-> ->]]; [congruence|]. rewrite (service_at_fun _ _ _ _ _ Hg Hsa). exact Gs.
+      + rewrite (service_at_fun _ _ _ _ _ Hg Hsa). exact Gs.
+    - apply TrimFacts.bind_ok in H3. destruct H3 as [nb [Hb H3]].
+      destruct nb as [[[bn bi] b]|]; [|discriminate].
+      apply TrimFacts.bind_ok in H3. destruct H3 as [[st2 back] [H2 H3]]. injection H3 as <- <-.
+      assert (sv_extends s <> []) as Hne by (apply is_nil_false; exact Enil).
+      destruct (base_service_spec p _ _ _ _ _ _ Hf Hne Hb) as [via [Hbo Hvia]].
+      pose proof (base_service_at matches cp p _ _ _ _ _ _ Hf Hb) as Hsb.
+      pose proof (Hmono _ _ _ _ _ H2) as L2. cbn [fst] in L2.
+      destruct (Hrec _ _ _ b _ _ _ H2 Hsb) as [R1 [R2 R3]].
+      assert (le st2 st') as L2'.
+      { eapply le_trans; [|exact L3]. destruct back; [apply le_refl | apply le_add_ext]. }
+      assert (good_ext st' F si s) as Gs.
+      { intros _. destruct back.
+        - right. exists (NService bn bi), via. split; [exact Hbo|].
+          split; [eapply le_marked; [exact L2' | apply R1; reflexivity]|].
+          intros m Hm'. destruct (sv_ref s) as [r|] eqn:Er.
+          + destruct (Hvia _ eq_refl) as [i [tn [Hi ->]]]. destruct Hm' as [<-|[]].
+            destruct (Hend eq_refl) as [_ Hinc]. eapply Hinc; eauto.
+          + unfold base_of in Hbo. rewrite Hf, Er in Hbo. destruct (sv_extends s); [congruence|].
+            destruct (find_index _ _) as [[? ?]|]; [|discriminate]. inversion Hbo; subst. destruct Hm'.
+        - left. eapply in_ext_le; [exact L3 | apply in_ext_add]. }
+      split; [intros E; apply Hend; exact E|]. split; [exact Gs|].
+      intros G gi gs Hg Hmk H0.
+      destruct (O3 _ _ Hmk) as [M3|[-> ->]]; [|rewrite (service_at_fun _ _ _ _ _ Hg Hsa); exact Gs].
+      assert (marked st2 (NService G gi) = true) as M2 by (destruct back; exact M3).
+      destruct (marked st1 (NService G gi)) eqn:E1.
+      + destruct (H1 _ _ E1) as [M0|[-> ->]]; [congruence|]. rewrite (service_at_fun _ _ _ _ _ Hg Hsa). exact Gs.
+      + eapply good_ext_le; [exact L2' | apply R3; assumption].
+  Qed.
+
+  Lemma trace_gpost_all fuel : trace_gpost (trace matches c p fuel).
+  Proof.
+    induction fuel as [|n IH]; cbn.
+    - intros fa F si s st st' ret H. discriminate.
+    - apply trace_body_gpost; [apply trace_le | exact IH].
+  Qed.
+End FilterBase.
+
+
+(* ==================================================================== *)
+Section FilterBase2.
+  Variable matches : bytes -> bytes -> bool.
+  Variable cp : bytes -> bool.
+  Variable c : cfg.
+  Variable p : program.
+  Hypothesis Hfilter : filtering c = true.
+
+  Notation good_ext := (good_ext p).
+
+  Definition svc_gpost (rec : bytes -> nat -> mstate -> res mstate) : Prop :=
+    forall F si s st st', rec F si st = Ok st' -> service_at p F si s ->
+      forall G gi gs, service_at p G gi gs -> marked st' (NService G gi) = true ->
+        marked st (NService G gi) = false -> good_ext st' G gi gs.
+
+  Lemma mark_service_body_gpost rec fuel :
+    (forall F si st st', rec F si st = Ok st' -> le st st') ->
+    svc_gpost rec -> svc_gpost (mark_service_body matches c p rec fuel).
+  Proof.
+    intros Hmono Hrec F si s st st' H Hsa.
+    destruct Hsa as [f [Hf Hs]]. unfold mark_service_body in H. rewrite Hf, Hs in H.
+    assert (service_at p F si s) as Hsa by (exists f; auto).
+    destruct (marked st (NService F si)) eqn:Em.
+    { injection H as <-. intros G gi gs _ H1 H0. congruence. }
+    rewrite Hfilter in H. cbv beta iota in H.
+    apply TrimFacts.bind_ok in H. destruct H as [st1 [H1 H]].
+    apply sloop in H1. destruct H1 as [L1 [O1 _]].
+    apply TrimFacts.bind_ok in H. destruct H as [st2 [H2 H]].
+    (* traceExtendMethod *)
+    assert (le st1 st2 /\ good_ext st2 F si s /\
+            (forall G gi gs, service_at p G gi gs -> marked st2 (NService G gi) = true ->
+               marked st1 (NService G gi) = false -> good_ext st2 G gi gs)) as [L2 [C2 N2]].
+    { destruct (negb (is_nil (sv_extends s)) || negb (is_none (sv_ref s))) eqn:Ee; cbn [andb] in H2.
+      - apply TrimFacts.bind_ok in H2. destruct H2 as [[s2 r2] [H2 H3]]. injection H3 as <-. cbn [fst].
+        pose proof (trace_le matches c p fuel _ _ _ _ _ H2) as L. cbn [fst] in L.
+        destruct (trace_gpost_all matches cp c p fuel _ _ _ s _ _ _ H2 Hsa) as [_ [T2 T3]].
+        split; [exact L|]. split; [exact T2 | exact T3].
+      - injection H2 as <-. split; [apply le_refl|]. split.
+        + intros Hne. apply orb_false_iff in Ee. destruct Ee as [Ee _]. apply negb_false_iff in Ee.
+          destruct (sv_extends s); [congruence | discriminate].
+        + intros G gi gs _ Hmk H0. congruence. }
+    assert (forall st3 nb, le st2 st3 -> same_services st2 st3 ->
+              base_service p F f s = Ok nb ->
+              match nb with Some (bn, bi, _) => rec bn bi st3 | None => Ok st3 end = Ok st' ->
+              le st2 st' /\
+              (forall G gi gs, service_at p G gi gs -> marked st' (NService G gi) = true ->
+                 marked st2 (NService G gi) = false -> good_ext st' G gi gs)) as Hfin.
+    { intros st3 nb L3 S3 Hb Hr. destruct nb as [[[bn bi] b]|].
+      - pose proof (Hmono _ _ _ _ Hr) as L4.
+        pose proof (Hrec _ _ b _ _ Hr (base_service_at matches cp p _ _ _ _ _ _ Hf Hb)) as N4.
+        split; [eapply le_trans; eauto|].
+        intros G gi gs Hg Hmk H0. apply N4; [exact Hg | exact Hmk|].
+        destruct (marked st3 (NService G gi)) eqn:E; [|reflexivity]. apply S3 in E. congruence.
+      - injection Hr as <-. split; [exact L3|]. intros G gi gs _ Hmk H0. apply S3 in Hmk. congruence. }
+    assert (le st2 st' /\
+            (forall G gi gs, service_at p G gi gs -> marked st' (NService G gi) = true ->
+               marked st2 (NService G gi) = false -> good_ext st' G gi gs)) as [L3 N3].
+    { destruct (negb (is_nil (sv_extends s)) && marked st2 (NService F si)).
+      - destruct (sv_ref s) as [r|].
+        + apply TrimFacts.bind_ok in H. destruct H as [st3 [H3 H]].
+          apply TrimFacts.bind_ok in H. destruct H as [nb [Hb H]].
+          eapply Hfin; [eapply mark_service_include_le; exact H3 | eapply mark_service_include_services; exact H3
+                        | exact Hb | exact H].
+        + apply TrimFacts.bind_ok in H. destruct H as [nb [Hb H]].
+          eapply Hfin; [apply le_refl | apply same_services_refl | exact Hb | exact H].
+      - injection H as <-. split; [apply le_refl|]. intros G gi gs _ Hmk H0. congruence. }
+    intros G gi gs Hg Hmk H0.
+    destruct (marked st2 (NService G gi)) eqn:E2; [|apply N3; assumption].
+    eapply good_ext_le; [exact L3|].
+    destruct (marked st1 (NService G gi)) eqn:E1; [|apply N2; assumption].
+    destruct (O1 _ _ E1) as [M|[-> ->]]; [congruence|].
+    rewrite (service_at_fun _ _ _ _ _ Hg Hsa). exact C2.
+  Qed.
+
+  Lemma mark_service_gpost fuel : svc_gpost (mark_service matches c p fuel).
+  Proof.
+    induction fuel as [|n IH]; cbn.
+    - intros F si s st st' H. discriminate.
+    - apply mark_service_body_gpost; [apply mark_service_le | exact IH].
+  Qed.
+
+  (* after markAST with a method filter every marked service is good *)
+  Theorem marked_services_good fuel fin :
+    mark_ast matches cp c p fuel = Ok fin ->
+    forall G gi gs, service_at p G gi gs -> marked fin (NService G gi) = true -> good_ext fin G gi gs.
+  Proof.
+    intros H. unfold mark_ast in H. destruct (prog_main p) as [f|] eqn:Hm; [|discriminate].
+    apply TrimFacts.bind_ok in H. destruct H as [[st1 r1] [H1 H]].
+    apply TrimFacts.bind_ok in H. destruct H as [st2 [H2 H]].
+    apply TrimFacts.bind_ok in H. destruct H as [[st3 r3] [H3 H]]. injection H as <-. cbn [fst].
+    assert (le st1 st2) as L12.
+    { revert H2. apply fold_res_rel; [apply le_refl | apply le_trans|]. intros is a b _. apply mark_service_le. }
+    destruct (pre_process_cached _ _ _ _ _ _ _ _ H1) as [v Hv].
+    assert (st3 = st2) as ->.
+    { unfold kept_part in H3. destruct L12 as [_ [_ L]]. rewrite (L _ _ Hv) in H3. congruence. }
+    assert (prog_file p (main_name p) = Some f) as Hf.
+    { unfold prog_main, main_name, prog_file in *. destruct p as [|[n g] r]; [discriminate|]. injection Hm as ->.
+      cbn. rewrite beqb_refl. reflexivity. }
+    assert (forall l, (forall is, In is l -> In is (indexed (f_services f))) ->
+              forall a b, fold_res (fun (is : nat * service) => mark_service matches c p fuel (main_name p) (fst is)) l a = Ok b ->
+              (forall G gi gs, service_at p G gi gs -> marked a (NService G gi) = true -> good_ext a G gi gs) ->
+              (forall G gi gs, service_at p G gi gs -> marked b (NService G gi) = true -> good_ext b G gi gs)) as Hl.
+    { induction l as [|[j sj] l IH]; intros Hsub a b Hfo Ia; cbn [fold_res] in Hfo.
+      - injection Hfo as <-. exact Ia.
+      - apply TrimFacts.bind_ok in Hfo. destruct Hfo as [a1 [Hx Hr]]. cbn [fst] in Hx.
+        pose proof (Hsub _ (or_introl eq_refl)) as Hj. apply indexed_In in Hj.
+        assert (service_at p (main_name p) j sj) as Hsj by (exists f; auto).
+        pose proof (mark_service_le matches c p fuel _ _ _ _ Hx) as La.
+        pose proof (mark_service_gpost _ _ _ _ _ _ Hx Hsj) as N1.
+        eapply IH; [intros; apply Hsub; right; assumption | exact Hr|].
+        intros G gi gs Hg Hmk. destruct (marked a (NService G gi)) eqn:E.
+        + eapply good_ext_le; [exact La | apply Ia; assumption].
+        + apply N1; assumption. }
+    eapply Hl; [intros is His; exact His | exact H2|].
+    intros G gi gs _ Hmk. apply (pre_process_services _ _ _ _ _ _ _ H1) in Hmk. discriminate.
+  Qed.
+End FilterBase2.
+
+
+(* ==================================================================== *)
+(* ---------------------------------------------------------------- base services, with a method filter *)
+
+Section BaseOkFilter.
+  Variable matches : bytes -> bytes -> bool.
+  Variable cp : bytes -> bool.
+  Variable c : cfg.
+  Variable p q : program.
+  Variable fin : mstate.
+  Hypothesis Hwf : wf p.
+  Hypothesis Hm : mark_ast matches cp c p (prog_size p) = Ok fin.
+  Hypothesis Hr : reach cp c p false (prog_size p) fin (main_name p) [] = Ok q.
+  Hypothesis Hres : resolvable p = true.
+  Hypothesis Hocc : forall fn f, prog_file p fn = Some f -> forall t, In t (file_occs f) -> occ_good p fn f t.
+  Hypothesis Hkinds : forall fn f k s, prog_file p fn = Some f -> In s (sl_list k f) -> sl_category s = k.
+  Hypothesis Hfilter : filtering c = true.
+  Hypothesis Hsv : forall fn f s, prog_file p fn = Some f -> In s (f_services f) ->
+    match split_type (sv_extends s) with
+    | [pre; m] => exists i gn, spec_include p is_service_kind pre m (file_incs f) 0 = Some (i, gn) /\
+                               sv_ref s = Some (Ref m (Z.of_nat i))
+    | _ => sv_ref s = None
+    end.
+
+  Let service_entry := service_entry p.
+  Let service_kept := service_kept matches cp c p q fin Hwf Hm Hr Hres Hocc Hkinds.
+
+  Theorem trimmed_base_ok_filter F qf : In (F, qf) q -> forallb (base_ok q F qf) (f_services qf) = true.
+  Proof.
+    intros Hq. destruct (q_entry cp c p q fin Hr _ _ Hq) as [pf [Hpf Htf]].
+    pose proof (p_file_ok matches cp c p q fin Hwf Hm Hr Hres Hocc Hkinds _ _ Hpf) as Hok. unfold file_ok in Hok.
+    rewrite !andb_true_iff in Hok. destruct Hok as [[[_ Hb] _] _]. rewrite forallb_forall in Hb.
+    apply forallb_forall. intros sv Hsvin.
+    pose proof Htf as Htf0.
+    unfold trim_file in Htf. apply TrimFacts.bind_ok in Htf. destruct Htf as [incs [_ Htf]].
+    assert (f_services qf = map (trim_service c fin F)
+              (filter (fun is => marked fin (NService F (fst is))) (indexed (f_services pf)))) as Es
+      by (injection Htf as <-; reflexivity).
+    rewrite Es in Hsvin. apply in_map_iff in Hsvin. destruct Hsvin as [[i s0] [<- Hin]].
+    apply filter_In in Hin. destruct Hin as [Hi Mk]. apply indexed_In in Hi. cbn [fst] in Mk.
+    pose proof (nth_error_In _ _ Hi) as Hs0.
+    specialize (Hb _ Hs0). specialize (Hsv _ _ _ Hpf Hs0).
+    unfold trim_service. cbn [fst snd].
+    destruct (in_ext fin F i) eqn:Eext; unfold base_ok; cbn [sv_extends]; [reflexivity|].
+    assert (forall b via, base_of p F s0 = Some (b, via) -> marked fin b = true /\ forall m, In m via -> marked fin m = true) as Hbase.
+    { intros b via Hbo.
+      assert (sv_extends s0 <> []) as Hne by (intros E; unfold base_of in Hbo; rewrite E in Hbo; discriminate).
+      destruct (marked_services_good matches cp c p Hfilter _ _ Hm F i s0 (ex_intro _ pf (conj Hpf Hi)) Mk Hne)
+        as [E|[b' [via' [Hbo' [Mb Mv]]]]]; [congruence|].
+      rewrite Hbo in Hbo'. injection Hbo' as <- <-. auto. }
+    unfold base_ok in Hb.
+    destruct (split_type (sv_extends s0)) as [|a [|m [|? ?]]] eqn:Sn; try reflexivity.
+    - (* a base service of the same file *)
+      destruct (def_of p F a) as [[| | | |]|] eqn:Dk; try discriminate.
+      pose proof (split_type_single _ _ Sn) as Ea. subst a.
+      destruct (service_entry _ _ _ Hpf Dk) as [b [Hbin Hbn]].
+      assert (beqb (sv_name b) (sv_extends s0) = true) as Hbb by (rewrite Hbn; apply beqb_refl).
+      destruct (find_index_from_complete (fun x => beqb (sv_name x) (sv_extends s0)) (f_services pf) 0 b Hbin Hbb) as [j [b' Hfi]].
+      pose proof (find_index_some _ _ _ _ Hfi) as [Hnj Hbj]. apply beqb_true in Hbj.
+      assert (base_of p F s0 = Some (NService F j, [])) as Hbo.
+      { unfold base_of. destruct (sv_extends s0) eqn:Ee; [discriminate Sn|]. rewrite <- Ee in *. rewrite Hpf, Hsv.
+        unfold find_index. rewrite Hfi. reflexivity. }
+      destruct (Hbase _ _ Hbo) as [Mb _].
+      rewrite <- Hbj. rewrite (service_kept _ _ _ _ _ Hq Hpf Hnj Mb). reflexivity.
+    - (* a base service written through an include *)
+      destruct (spec_include p is_service_kind a m (file_incs pf) 0) as [[i0 gn]|] eqn:Hs; [|discriminate].
+      destruct Hsv as [i1 [gn1 [E1 Hrf]]]. injection E1 as <- <-.
+      destruct (spec_include_nth _ _ _ _ _ _ _ _ Hs) as [_ [_ [k [Dk Ok]]]]. apply service_kind in Ok. subst k.
+      pose proof (spec_include_file p _ _ _ _ _ _ _ Hpf Hs) as Hif.
+      assert (exists tf, prog_file p gn = Some tf) as [tf Htfile].
+      { unfold def_of in Dk. destruct (prog_file p gn); [eauto | discriminate]. }
+      destruct (service_entry _ _ _ Htfile Dk) as [b [Hbin Hbn]].
+      assert (beqb (sv_name b) m = true) as Hbb by (rewrite Hbn; apply beqb_refl).
+      destruct (find_index_from_complete (fun x => beqb (sv_name x) m) (f_services tf) 0 b Hbin Hbb) as [j [b' Hfi]].
+      pose proof (find_index_some _ _ _ _ Hfi) as [Hnj Hbj]. apply beqb_true in Hbj.
+      assert (base_of p F s0 = Some (NService gn j, [NInclude F i0])) as Hbo.
+      { unfold base_of. destruct (sv_extends s0) eqn:Ee; [discriminate Sn|]. rewrite <- Ee in *. rewrite Hpf, Hrf.
+        cbn [ref_index ref_name]. rewrite Hif, Htfile. unfold find_index. rewrite Hfi. reflexivity. }
+      destruct (Hbase _ _ Hbo) as [Mb Mv].
+      assert (marked fin (NInclude F i0) = true) as Mi by (apply Mv; left; reflexivity).
+      destruct (include_kept cp c p q fin Hr _ _ _ _ _ Hq Hpf Hif Mi) as [_ [gq Hgq]].
+      pose proof (service_kept _ _ _ _ _ Hgq Htfile Hnj Mb) as Dq. rewrite Hbj in Dq.
+      destruct (q_spec_include matches cp c p q fin Hwf Hm Hr Hres Hocc Hkinds _ _ _ is_service_kind _ _ _ _ Hq Hpf Hs Mi
+                  (ex_intro _ DkService (conj Dq eq_refl))) as [i' Hs'].
+      rewrite Hs'. reflexivity.
+  Qed.
+End BaseOkFilter.
+
+Section AllConfigurations.
+  Variable matches : bytes -> bytes -> bool.
+  Variable cp : bytes -> bool.
+  Variable c : cfg.
+  Variable p q : program.
+  Variable fin : mstate.
+  Hypothesis Hwf : wf p.
+  Hypothesis Hm : mark_ast matches cp c p (prog_size p) = Ok fin.
+  Hypothesis Hr : reach cp c p false (prog_size p) fin (main_name p) [] = Ok q.
+  Hypothesis Hres : resolvable p = true.
+  Hypothesis Hocc : forall fn f, prog_file p fn = Some f -> forall t, In t (file_occs f) -> occ_good p fn f t.
+  Hypothesis Hkinds : forall fn f k s, prog_file p fn = Some f -> In s (sl_list k f) -> sl_category s = k.
+  Hypothesis Hsv : forall fn f s, prog_file p fn = Some f -> In s (f_services f) ->
+    match split_type (sv_extends s) with
+    | [pre; m] => exists i gn, spec_include p is_service_kind pre m (file_incs f) 0 = Some (i, gn) /\
+                               sv_ref s = Some (Ref m (Z.of_nat i))
+    | _ => sv_ref s = None
+    end.
+
+  (* trim_resolves, every configuration, no hypothesis on the output *)
+  Theorem trim_resolves :
+    resolvable q = true /\ exists r, Idl.Resolve.resolve_program q = Idl.Resolve.Ok r.
+  Proof.
+    destruct (filtering c) eqn:Ef.
+    - apply (trim_resolves_given_bases matches cp c p q fin Hwf Hm Hr Hres Hocc Hkinds).
+      intros F qf Hq. eapply (trimmed_base_ok_filter matches cp c p q fin Hwf Hm Hr Hres Hocc Hkinds Ef Hsv); exact Hq.
+    - apply (trim_resolves_without_filter matches cp c p q fin Hwf Hm Hr Hres Hocc Hkinds Ef Hsv).
+  Qed.
+End AllConfigurations.
